@@ -208,6 +208,11 @@ ms_types! {
     struct MEmptyNamed {}
     struct MHeap { v: heapless::Vec<u16, 9>, s: heapless::String<33>, n: Option<heapless::Vec<MNew, 2>> }
     enum MOne { Only }
+    enum MThree { A, B(u8), C(u64, [u8; 4]) }
+    enum MFive { A, B, C(u8), D, E(u128, char) }
+    enum MSix { A(u8), B, C, D, E, F { x: i64, y: [u16; 3] } }
+    enum MSeven { A, B, C, D, E, F, G(Option<u64>, i128) }
+    struct MZst { v: heapless::Vec<(), 128>, p: heapless::Vec<std::marker::PhantomData<u8>, 200>, e: heapless::Vec<[u8; 0], 3> }
     enum MTwo { A, B(u32) }
     enum MData { Unit, New(u16), Tup(u8, i32), Rec { a: u64, b: Option<bool> }, Zero(), ZeroRec {}, Big(MNamed), Small(MOne) }
     struct MNested { d: MData, t: MTwo, o: Option<MData>, r: Result<MTwo, MUnit>, arr: [MTwo; 3] }
@@ -371,6 +376,7 @@ pub fn run(cfg: &Cfg) -> Report {
         ty!(heapless::Vec<u32, 127>); ty!(heapless::Vec<(u8, char), 3>); ty!(heapless::Vec<Option<u16>, 5>);
         ty!(heapless::String<0>); ty!(heapless::String<1>); ty!(heapless::String<127>); ty!(heapless::String<128>); ty!(heapless::String<16383>); ty!(heapless::String<16384>);
         ty!(MUnit); ty!(MNew); ty!(MTup); ty!(MEmptyTup); ty!(MNamed); ty!(MEmptyNamed); ty!(MHeap); ty!(MOne); ty!(MTwo); ty!(MData); ty!(MNested); ty!(MStd);
+        ty!(MThree); ty!(MFive); ty!(MSix); ty!(MSeven); ty!(MZst); ty!(heapless::Vec<(), 128>); ty!(heapless::Vec<u32, 100>); ty!(heapless::Vec<u64, 16384>);
         ty!(M127); ty!(M128); ty!(M129); ty!(MGen<u8>); ty!(MGen<MData>); ty!(MGen<heapless::String<4>>);
         // reference impls only serialise: declared maximum must equal the referent's
         if t.tid == 0 {
